@@ -105,6 +105,17 @@ check("C15", "exploration", "model-based testing: exhaustive operation sequences
       "Trusted: the in-memory model in vp/checks/c15.py, vp/reffind.py for constants-backed levels. Reserved attribute keys excluded.",
       "DESIGN.md section 2, C15")
 
+check("C16", "exploration", "property-based testing (Hypothesis): generated trees with attribute data, Getter output against Finder output and a data model",
+      "For generated trees with random sidecar data, searches, attribute lists and three sid_encode functions, GetFromPaths.get is compared record by record (count, order, 'sid' entry, stored data / requested keys) with "
+      "FindInPaths.find; GetFromAll is compared as a multiset with GetFromPaths for types with a configured Getter and must yield nothing for the others; get_one / get_data / get_attr are checked against the same records.",
+      "Trusted: sidecar location from the configuration's get_data_json_path. Empty attributes list not generated.",
+      "DESIGN.md section 2, C16")
+check("C18", "exploration", "property-based testing (Hypothesis): generated version sets and publish loops against a version-set model",
+      "Trees with dense / sparse / first / maximal / empty version sets; get_last, get_next and get_new are compared on task / version / state / file level Sids (version concrete, '*', '>' or absent) with "
+      "a model over the existing versions (reference '>' selection, digit pattern from the configuration); a publish loop of up to 8 create(get_new) steps must produce strictly increasing, non-existing versions.",
+      "Trusted: vp/reffind.py reference selection. Demo plugin's key name 'version'. No-sibling successor only weakly asserted.",
+      "DESIGN.md section 2, C18")
+
 NOT_APPLICABLE = {
 }
 
